@@ -1,7 +1,18 @@
 """C14 - commands are written as RESP arrays of bulk strings that decode (independent parser) to the same argv."""
-from checks import respcommon
+import shutil, tempfile
+from checks import respcommon, pipecommon
+from lib import vlib
 LEVEL = 'exploration'
 
 
 def run(ctx):
     respcommon.run(ctx, 'c14', ['cmd'], ['MC_neg_chunklen.cfg'], par=2)
+    # "every command written to the wire ... equals the command's arguments": also for commands whose call was abandoned
+    # or failed while they were still queued (the gated-write mode of the pipeline driver, shared with C33: the server's
+    # independently decoded argv must equal the argv the caller built; validated against PipeObs!ArgvImmutable)
+    tracedir = tempfile.mkdtemp(prefix='verif-pipe-', dir=vlib.SCRATCH_ROOT)
+    try:
+        pipecommon.drive(ctx, ['c33'], 10 if ctx.tier == 'thorough' else 2, 'thorough' if ctx.tier == 'thorough' else 'quick', [], tracedir)
+        pipecommon.validate(ctx, tracedir, ['ArgvImmutable', 'BatchContiguousOnWire'])
+    finally:
+        shutil.rmtree(tracedir, ignore_errors=True)
